@@ -1,0 +1,42 @@
+/*
+ * Copyright (C) 2024 Nuts community
+ *
+ * This program is free software: you can redistribute it and/or modify
+ * it under the terms of the GNU General Public License as published by
+ * the Free Software Foundation, either version 3 of the License, or
+ * (at your option) any later version.
+ *
+ * This program is distributed in the hope that it will be useful,
+ * but WITHOUT ANY WARRANTY; without even the implied warranty of
+ * MERCHANTABILITY or FITNESS FOR A PARTICULAR PURPOSE.  See the
+ * GNU General Public License for more details.
+ *
+ * You should have received a copy of the GNU General Public License
+ * along with this program.  If not, see <https://www.gnu.org/licenses/>.
+ *
+ */
+
+package proof
+
+import (
+	"crypto/ed25519"
+	"testing"
+
+	"github.com/nuts-foundation/nuts-node/jsonld"
+	"github.com/nuts-foundation/nuts-node/vcr/signature"
+	"github.com/stretchr/testify/assert"
+)
+
+// The key of a remote issuer/holder can be an Ed25519 key of any length (did:jwk, did:web, did:key): crypto/ed25519 panics on those.
+func TestLDProof_Verify_Ed25519KeyOfWrongLength(t *testing.T) {
+	contextLoader := jsonld.NewTestJSONLDManager(t).DocumentLoader()
+	ldProof := LDProof{JWS: "eyJhbGciOiJFZERTQSIsImI2NCI6ZmFsc2UsImNyaXQiOlsiYjY0Il19..AAAA"}
+	document := Document{"@context": []interface{}{"https://www.w3.org/2018/credentials/v1"}}
+	for _, length := range []int{0, 31, 33, 34, 64} {
+		key := ed25519.PublicKey(make([]byte, length))
+		assert.NotPanics(t, func() {
+			err := ldProof.Verify(document, signature.JSONWebSignature2020{ContextLoader: contextLoader}, key)
+			assert.Error(t, err)
+		}, "key length %d", length)
+	}
+}
